@@ -144,13 +144,16 @@ theorem no_rule_builtin (n : Nat) (tokens : List String) (cwd : String) (rem : B
   simp only [hw, Bool.false_and, Bool.false_eq_true, ↓reduceIte]
 
 /-- an environment-assignment prefix hides nothing: the rules (and everything else) see exactly the
-    words after the prefix – the command proper of `A=1 B=2 cmd …` is the simple command `cmd …` -/
+    words after the prefix – the command proper of `A=1 B=2 cmd …` is the simple command `cmd …`, judged as spelled and
+    as bash reads it after quote removal (the stricter verdict) -/
 theorem env_prefix_transparent (ws : List Word) (cwd : String) (rem : Bool)
     (hlt : (mkCmdCtx w ws).baseIdx < (mkCmdCtx w ws).words.length)
     (hb : ((mkCmdCtx w ws).base == "[" || (mkCmdCtx w ws).base == "test") = false) :
     C03.proper w rec h ws cwd rem
-      = (simpleCmd w rec h ((mkCmdCtx w ws).words.length + 1)
-          ((mkCmdCtx w ws).words.drop (mkCmdCtx w ws).baseIdx) cwd rem).action := by
+      = Action.sup (simpleCmd w rec h ((mkCmdCtx w ws).words.length + 1)
+          ((mkCmdCtx w ws).words.drop (mkCmdCtx w ws).baseIdx) cwd rem).action
+          (simpleCmd w rec h ((mkCmdCtx w ws).unquoted.length + 1)
+          ((mkCmdCtx w ws).unquoted.drop (mkCmdCtx w ws).baseIdx) cwd rem).action := by
   unfold C03.proper
   have hne : (mkCmdCtx w ws).words.isEmpty = false := by
     cases hw : (mkCmdCtx w ws).words with
@@ -158,13 +161,49 @@ theorem env_prefix_transparent (ws : List Word) (cwd : String) (rem : Bool)
     | cons _ _ => rfl
   simp only [hne, Bool.false_eq_true, ↓reduceIte, hb, ge_iff_le, Nat.not_le.mpr hlt]
 
-/-- hence a rule matching the words after the prefix decides the prefixed command -/
-theorem rule_through_env_prefix (ws : List Word) (cwd : String) (rem : Bool) (m : Match)
+/-- hence a rule matching the words after the prefix bounds the prefixed command from below (a deny rule denies it) … -/
+theorem rule_bounds_env_prefix (ws : List Word) (cwd : String) (rem : Bool) (m : Match)
     (hlt : (mkCmdCtx w ws).baseIdx < (mkCmdCtx w ws).words.length)
     (hb : ((mkCmdCtx w ws).base == "[" || (mkCmdCtx w ws).base == "test") = false)
     (hm : w.matchCommand ((mkCmdCtx w ws).words.drop (mkCmdCtx w ws).baseIdx) cwd rem = some m) :
-    C03.proper w rec h ws cwd rem = m.decision := by
+    m.decision ≤ C03.proper w rec h ws cwd rem := by
   rw [env_prefix_transparent w rec h ws cwd rem hlt hb]
+  have hd : ((mkCmdCtx w ws).words.drop (mkCmdCtx w ws).baseIdx).isEmpty = false := by
+    have : ((mkCmdCtx w ws).words.drop (mkCmdCtx w ws).baseIdx).length > 0 := by
+      rw [List.length_drop]; omega
+    cases hd : (mkCmdCtx w ws).words.drop (mkCmdCtx w ws).baseIdx with
+    | nil => rw [hd] at this; simp at this
+    | cons _ _ => rfl
+  rw [rule_decides w rec h _ _ cwd rem m hd hm]
+  exact Action.le_sup_left _ _
+
+/-- … and a rule matching the words as bash reads them (after quote removal) bounds it as well: `r\m -rf x` does not
+    slip past `deny rm -rf *` -/
+theorem rule_on_unquoted_bounds (ws : List Word) (cwd : String) (rem : Bool) (m : Match)
+    (hlt : (mkCmdCtx w ws).baseIdx < (mkCmdCtx w ws).words.length)
+    (hb : ((mkCmdCtx w ws).base == "[" || (mkCmdCtx w ws).base == "test") = false)
+    (hm : w.matchCommand ((mkCmdCtx w ws).unquoted.drop (mkCmdCtx w ws).baseIdx) cwd rem = some m) :
+    m.decision ≤ C03.proper w rec h ws cwd rem := by
+  rw [env_prefix_transparent w rec h ws cwd rem hlt hb]
+  have hlen : (mkCmdCtx w ws).unquoted.length = (mkCmdCtx w ws).words.length := by
+    simp [mkCmdCtx, mkCmdCtxS]
+  have hd : ((mkCmdCtx w ws).unquoted.drop (mkCmdCtx w ws).baseIdx).isEmpty = false := by
+    have : ((mkCmdCtx w ws).unquoted.drop (mkCmdCtx w ws).baseIdx).length > 0 := by
+      rw [List.length_drop]; omega
+    cases hd : (mkCmdCtx w ws).unquoted.drop (mkCmdCtx w ws).baseIdx with
+    | nil => rw [hd] at this; simp at this
+    | cons _ _ => rfl
+  rw [rule_decides w rec h _ _ cwd rem m hd hm]
+  exact Action.le_sup_right _ _
+
+/-- when quote removal changes no word, the matching rule decides the prefixed command -/
+theorem rule_through_env_prefix (ws : List Word) (cwd : String) (rem : Bool) (m : Match)
+    (hlt : (mkCmdCtx w ws).baseIdx < (mkCmdCtx w ws).words.length)
+    (hb : ((mkCmdCtx w ws).base == "[" || (mkCmdCtx w ws).base == "test") = false)
+    (hq : (mkCmdCtx w ws).unquoted = (mkCmdCtx w ws).words)
+    (hm : w.matchCommand ((mkCmdCtx w ws).words.drop (mkCmdCtx w ws).baseIdx) cwd rem = some m) :
+    C03.proper w rec h ws cwd rem = m.decision := by
+  rw [env_prefix_transparent w rec h ws cwd rem hlt hb, hq, Action.sup_idem]
   apply rule_decides w rec h _ _ cwd rem m _ hm
   have : ((mkCmdCtx w ws).words.drop (mkCmdCtx w ws).baseIdx).length > 0 := by
     rw [List.length_drop]; omega
@@ -203,5 +242,41 @@ theorem rule_through_wrapper (n : Nat) (W : String) (rest inner : List String) (
     (simpleCmd w rec h (n + 1 + 1) (W :: rest) cwd rem).action = m.decision := by
   rw [wrapper_transparent w rec h n W rest inner cwd rem hwr hr hcv hskip hi hm]
   exact rule_decides w rec h n inner cwd rem m hi hmi
+
+/-! ### quote removal: the words bash reads -/
+
+/-- T0 facts: `_analyze_command` has the second pass, and `_remove_quotes` has the shape the model implements (which
+    words are left alone, what a backslash escapes inside double quotes, the numeric escapes of `$'…'`) -/
+theorem quote_removal_shape :
+    Generated.Quoting.secondPassPresent = true
+      ∧ Generated.Quoting.ownContextMarkers = ["$(", "`", "${", "<(", ">("]
+      ∧ Generated.Quoting.doubleQuoteEscapable = "$`\"\\\n"
+      ∧ Generated.Quoting.ansiCNumericPattern = "([0-7]{1,3})|(?:x([0-9a-fA-F]{1,2})|u([0-9a-fA-F]{1,4})|U([0-9a-fA-F]{1,8}))" := by
+  decide
+
+/-- spellings that used to reach rules and handlers unread -/
+theorem quote_removal_examples :
+    removeQuotes "-\"exec\"" = "-exec" ∧ removeQuotes "\\-delete" = "-delete" ∧ removeQuotes "r\\m" = "rm"
+      ∧ removeQuotes "$'\\x2ddel\\145te'" = "-delete" ∧ removeQuotes "'r'\"m\"" = "rm" ∧ removeQuotes "$'\\u002dexec'" = "-exec"
+      ∧ removeQuotes "\"$(x)\"" = "$(x)" ∧ removeQuotes "it\\'s" = "it's" := by
+  decide +kernel
+
+/-- a word without quote characters, backslashes or `$` is read as written -/
+theorem rqLoop_plain (esc : List (Char × Char)) (cs acc : List Char) (f : Nat) (hf : cs.length < f)
+    (hc : ∀ c ∈ cs, c ≠ '\\' ∧ c ≠ '\'' ∧ c ≠ '"' ∧ c ≠ '$') :
+    rqLoop esc f .plain cs acc = some (acc.reverse ++ cs) := by
+  induction cs generalizing acc f with
+  | nil =>
+    cases f with
+    | zero => simp at hf
+    | succ f => simp [rqLoop]
+  | cons c rest ih =>
+    cases f with
+    | zero => simp at hf
+    | succ f =>
+      obtain ⟨h1, h2, h3, h4⟩ := hc c (by simp)
+      simp only [rqLoop, h1, h2, h3, h4, ↓reduceIte]
+      rw [ih (c :: acc) f (by simp at hf; omega) (fun x hx => hc x (by simp [hx]))]
+      simp
 
 end Dippy.C07
